@@ -1434,6 +1434,9 @@ def hd_diff_delivered(path):
     named, _, _ = path.entails(truth(output))
     unnamed, _, _ = path.entails(z3.Not(truth(output)))
     if named:
+        if not dumps:
+            # written by other means than json.dump (a helper, Path.write_text, ...): not visible here, the file-interface runs decide
+            raise _oos('no json.dump on the path that names an output file')
         if len(dumps) != 1:
             return False, '%d json.dump calls on a returning path with an output file' % len(dumps)
         if not as_py(dumps[0].args[0]).eq(as_py(d.result)):
